@@ -315,7 +315,8 @@ func (g *Generator) generateFlattenFieldUnmarshal(gf *protogen.GeneratedFile, in
 	}
 
 	childMsg := field.Message
-	childTypeName := childMsg.GoIdent.GoName
+	// the GoIdent (not its bare name): the child may live in another Go package
+	childTypeName := childMsg.GoIdent
 
 	gf.P("// Extract flattened child fields for: ", field.Desc.Name())
 	gf.P("var flat", goName, " *", childTypeName)
